@@ -3,13 +3,21 @@
 // the same geometry, compare number density, temperature and neutral fractions cell by cell.
 // op line:  snap <nx> <ny> <nz> <ax> <ay> <az> <sx> <sy> <sz> <seed>     (box in metres, bit patterns)
 // answer:   ok <ncell> maxrel=<..>   (+ ORACLE line when a cell differs by more than 1e-12 relative)
+// op line:  snapb <n> <gx> <gy> <gz> <ax> <ay> <az> <side> <buffer> <seed>
+//           task-based snapshot: cubic box, n^3 cells in gx x gy x gz subgrids, written through the
+//           writer's DensitySubGridCreator overload, read back on the same geometry through BOTH
+//           CMacIonizeSnapshotDensityFunction and BufferedCMacIonizeSnapshotDensityFunction (buffer
+//           of <buffer> subgrids, cells visited in global order so that subgrids are evicted)
 #include "common.hpp"
 #include <unistd.h>
 
 #define private public
 #include "ParameterFile.hpp"
 #undef private
+#include "BufferedCMacIonizeSnapshotDensityFunction.hpp"
 #include "CMacIonizeSnapshotDensityFunction.hpp"
+#include "DensitySubGrid.hpp"
+#include "DensitySubGridCreator.hpp"
 #include "CartesianDensityGrid.hpp"
 #include "DensityFunction.hpp"
 #include "DensityGridWriterFields.hpp"
@@ -68,6 +76,118 @@ public:
   virtual double get_volume() const { return 0.; }
 };
 
+// compare what a reader returns at the midpoint of every cell (global x,y,z order) with the field
+template < typename _reader_ >
+static void compare(_reader_ &reader, const Field &f, const char *rname, double &maxrel,
+                    std::string &what) {
+  for (long ix = 0; ix < f.n[0]; ++ix)
+    for (long iy = 0; iy < f.n[1]; ++iy)
+      for (long iz = 0; iz < f.n[2]; ++iz) {
+        const long c = (ix * f.n[1] + iy) * f.n[2] + iz;
+        const CoordinateVector<> p(f.anchor[0] + (ix + 0.5) * f.sides[0] / f.n[0],
+                                   f.anchor[1] + (iy + 0.5) * f.sides[1] / f.n[1],
+                                   f.anchor[2] + (iz + 0.5) * f.sides[2] / f.n[2]);
+        const DensityValues v = reader(PointCell(p));
+        const double got[3] = {v.get_number_density(), v.get_temperature(),
+                               v.get_ionic_fraction(ION_H_n)};
+        const double want[3] = {f.dens(c), f.temp(c), f.xH(c)};
+        static const char *names[3] = {"number density", "temperature", "neutral fraction H"};
+        for (int k = 0; k < 3; ++k) {
+          const double rel =
+              std::fabs(got[k] - want[k]) / std::max(std::fabs(got[k]), std::fabs(want[k]));
+          if (rel > maxrel)
+            maxrel = rel;
+          if (!(rel <= 1.e-12) && what.empty()) {
+            std::ostringstream o;
+            o.precision(17);
+            o << rname << ": " << names[k] << " of cell (" << ix << "," << iy << "," << iz
+              << "): written " << want[k] << " read " << got[k];
+            what = o.str();
+          }
+        }
+      }
+}
+
+static void op_snapb(const std::vector< std::string > &w, const std::string &dir, long lineno) {
+  Field f;
+  const long n = std::atol(w[1].c_str());
+  const long g[3] = {std::atol(w[2].c_str()), std::atol(w[3].c_str()), std::atol(w[4].c_str())};
+  const double side = dbl(w[8]);
+  for (int k = 0; k < 3; ++k) {
+    f.n[k] = n;
+    f.anchor[k] = dbl(w[5 + k]);
+    f.sides[k] = side;
+  }
+  const long buffer = std::atol(w[9].c_str());
+  f.seed = u64(w[10]);
+  std::ostringstream pt;
+  pt.precision(17);
+  pt << "SimulationBox:\n  anchor: [" << f.anchor[0] << " m, " << f.anchor[1] << " m, " << f.anchor[2]
+     << " m]\n  sides: [" << side << " m, " << side << " m, " << side << " m]\n"
+     << "  periodicity: [false, false, false]\n"
+     << "DensityGrid:\n  number of cells: [" << n << ", " << n << ", " << n << "]\n"
+     << "DensitySubGridCreator:\n  number of subgrids: [" << g[0] << ", " << g[1] << ", " << g[2]
+     << "]\n  periodicity: [false, false, false]\n";
+  ParameterFile params;
+  {
+    std::istringstream is(pt.str());
+    params._yaml_dictionary = YAMLDictionary(is);
+  }
+  const CoordinateVector<> anchor =
+      params.get_physical_vector< QUANTITY_LENGTH >("SimulationBox:anchor");
+  const CoordinateVector<> sides =
+      params.get_physical_vector< QUANTITY_LENGTH >("SimulationBox:sides");
+  params.get_value< CoordinateVector< bool > >("SimulationBox:periodicity");
+  Box<> box(anchor, sides);
+  FieldFunction ff;
+  ff.f = f;
+  // the real task-based grid: the constructor reads (and thereby records as used) the number of
+  // cells, the number of subgrids and the periodicity
+  DensitySubGridCreator< DensitySubGrid > creator(box, params);
+  creator.initialize(ff);
+
+  uint_fast32_t fields[DENSITYGRIDFIELD_NUMBER];
+  for (int_fast32_t p = 0; p < DENSITYGRIDFIELD_NUMBER; ++p)
+    fields[p] = 0;
+  fields[DENSITYGRIDFIELD_COORDINATES] = true;
+  fields[DENSITYGRIDFIELD_NUMBER_DENSITY] = true;
+  fields[DENSITYGRIDFIELD_TEMPERATURE] = true;
+#ifdef HAS_HELIUM
+  fields[DENSITYGRIDFIELD_NEUTRAL_FRACTION] = 3;
+#else
+  fields[DENSITYGRIDFIELD_NEUTRAL_FRACTION] = 1;
+#endif
+  const std::string prefix = "snapb" + std::to_string(lineno) + "_";
+  {
+    GadgetDensityGridWriter writer(prefix, dir, false, DensityGridWriterFields(fields), nullptr);
+    writer.write(creator, 0, params);
+  }
+  const std::string file = dir + "/" + prefix + "000.hdf5";
+  double maxrel = 0.;
+  std::string what_plain, what_buffered;
+  {
+    CMacIonizeSnapshotDensityFunction reader(file, false, false, 1.e-6, nullptr);
+    reader.initialize();
+    compare(reader, f, "CMacIonizeSnapshotDensityFunction", maxrel, what_plain);
+    reader.free();
+  }
+  {
+    BufferedCMacIonizeSnapshotDensityFunction reader(
+        file, buffer, box, CoordinateVector< uint_fast32_t >(n, n, n), nullptr);
+    reader.initialize();
+    compare(reader, f, "BufferedCMacIonizeSnapshotDensityFunction", maxrel, what_buffered);
+    reader.free();
+  }
+  unlink(file.c_str());
+  std::printf("ok %ld maxrel=%.3g\n", n * n * n, maxrel);
+  if (!what_plain.empty())
+    std::printf("ORACLE line=%ld snapshot-roundtrip-differs (%s)\n", lineno, what_plain.c_str());
+  if (!what_buffered.empty())
+    std::printf("ORACLE line=%ld snapshot-buffered-roundtrip-differs (%s)\n", lineno,
+                what_buffered.c_str());
+  std::fflush(stdout);
+}
+
 int main() {
   std::string line;
   long lineno = 0;
@@ -76,6 +196,10 @@ int main() {
   while (std::getline(std::cin, line)) {
     ++lineno;
     const std::vector< std::string > w = words(line);
+    if (w.size() == 11 && w[0] == "snapb") {
+      op_snapb(w, dir, lineno);
+      continue;
+    }
     if (w.size() != 11 || w[0] != "snap") {
       std::printf("bad-op\n");
       continue;
